@@ -76,6 +76,11 @@ func printFile(lpkg *listedPackage, file *ast.File) ([]byte, error) {
 		case *ast.CallExpr:
 			nextOffset = fsetFile.Position(node.Pos()).Offset
 		case *ast.Ident:
+			if node.Name == "." {
+				// The name of a dot import is printed as a period token,
+				// not as an identifier token, so it has no entry below.
+				continue
+			}
 			origCallOffsets = append(origCallOffsets, nextOffset)
 			nextOffset = -1
 		}
